@@ -212,6 +212,23 @@ def Verb.subs : Verb → List Nat
   | .loadState k => (List.range k).map (· + 1)
   | _ => [0]
 
+/-- `load_state` reads the file through a fixed-size buffer; every fill yields a
+    batch of parsed requests. The request index handed to `scatter_on` comes from
+    ONE counter (`scatter_request_counter`) declared outside the read loop and
+    incremented before each use: batch sizes `[b₁, b₂, …]` give the indices
+    `1 … b₁`, `b₁+1 … b₁+b₂`, … -/
+def loadSubsFrom (counter : Nat) : List Nat → List Nat
+  | [] => []
+  | b :: bs => (List.range b).map (· + counter + 1) ++ loadSubsFrom (counter + b) bs
+
+def loadSubs (batches : List Nat) : List Nat := loadSubsFrom 0 batches
+
+/-- the variant a refactor could introduce (`enumerate()` inside the batch loop):
+    the index restarts at every buffer fill -/
+def loadSubsRestarting : List Nat → List Nat
+  | [] => []
+  | b :: bs => (List.range b).map (· + 1) ++ loadSubsRestarting bs
+
 -- ---------------------------------------------------------- scatter ----
 
 def liveWorkers (h : Hub) : List Nat :=
